@@ -7,19 +7,22 @@ CONSTANTS NLay,         \* number of layers
           NameSet,      \* drop-in names in play (subset of 1..9)
           MaxDrops,     \* bound on the total number of drop-in files in a tree
           Shapes,       \* set of two-letter strings: main shape, drop-in shape (b both, n group-less, s section)
-          Export
-VARIABLES main, drop, shp, stage
-vars == <<main, drop, shp, stage>>
+          Export,
+          ND            \* number of postfix (drop-in) directories per layer: 1, or 2 for CONFIG_DIRS / econf_set_conf_dirs lists
+VARIABLES main, drop, shp, stage, pd
+vars == <<main, drop, shp, stage, pd>>
 
 MShape(s) == CASE s \in {"bb", "bn", "bs"} -> "both" [] s \in {"nb", "nn", "ns"} -> "nogroup" [] OTHER -> "section"
 DShape(s) == CASE s \in {"bb", "nb", "sb"} -> "both" [] s \in {"bn", "nn", "sn"} -> "nogroup" [] OTHER -> "section"
-Tree == [main |-> main, drop |-> drop, mshape |-> MShape(shp), dshape |-> DShape(shp)]
+Tree == [main |-> main, drop |-> drop, mshape |-> MShape(shp), dshape |-> DShape(shp), pd |-> pd]
 NDrops == LET RECURSIVE S(_) S(i) == IF i = 0 THEN 0 ELSE Cardinality(drop[i]) + S(i - 1) IN S(Len(drop))
 
-Init == main = <<>> /\ drop = <<>> /\ stage = 0 /\ shp \in Shapes
+Init == main = <<>> /\ drop = <<>> /\ stage = 0 /\ shp \in Shapes /\ pd = <<>>
 Grow == /\ stage < NLay /\ stage' = stage + 1
         /\ \E k \in MainKinds, d \in {s \in SUBSET NameSet : Cardinality(s) + NDrops <= MaxDrops} :
              /\ main' = Append(main, k) /\ drop' = Append(drop, d)
+             \* each present drop-in sits in one of the ND postfix directories (never the same name in two of them)
+             /\ \E a \in [d -> 1..ND] : pd' = Append(pd, [n \in 1..NNames |-> IF n \in d THEN a[n] ELSE 1])
         /\ UNCHANGED shp
 Next == Grow
 Spec == Init /\ [][Next]_vars
@@ -38,7 +41,7 @@ LayeredIsUapi == stage = NLay => IsUapi(Outcome)
 HistoryFolds  == stage = NLay => Folds(Outcome)
 
 FileJ(f) == <<f.l, f.r>>
-CaseOf(o) == [main |-> main, drop |-> [i \in 1..NLay |-> SetToSeq(drop[i])], shp |-> shp,
+CaseOf(o) == [main |-> main, drop |-> [i \in 1..NLay |-> SetToSeq(drop[i])], shp |-> shp, pd |-> pd,
          rc |-> o.rc, exp |-> ObsOf(o.cfg),
          log |-> [j \in 1..Len(o.log) |-> FileJ(o.log[j])],
          hist |-> [j \in 1..Len(o.hist) |-> [f |-> FileJ(o.hist[j]), obs |-> ObsOf(Content(Tree, o.hist[j]))]],
